@@ -641,7 +641,11 @@ impl<Backing : AsRef<[u32]> + AsMut<[u32]>> DrawTarget<Backing> {
     /// Pushes a new layer as the drawing target. This is used for implementing
     /// group opacity or blend effects.
     pub fn push_layer_with_blend(&mut self, opacity: f32, blend: BlendMode) {
-        let rect = self.clip_bounds();
+        let mut rect = self.clip_bounds();
+        // disjoint clip rects leave an inverted box: the layer is then simply empty
+        if rect.is_empty() {
+            rect = IntRect::new(rect.min, rect.min);
+        }
         #[cfg(feature = "verif")]
         {
             if rect.is_empty() {
